@@ -38,6 +38,8 @@ SPEC['explanation'] += ' T7.gap: inside the loop of format_int_list a run is wri
 SPEC['decided'] += ['run closed only on a gap']
 SPEC['explanation'] += ' T30 also understands `<char> in arg` tests and an argument emitted as a whole: sound only for an argument without a double quote that is emitted unquoted.'
 SPEC['decided'] += ['whole-argument fast path of args2cmd']
+SPEC['explanation'] += ' T20.nocache: parse_int_list and the quoting functions are not memoised (a cached list is shared between callers).'
+SPEC['decided'] += ['results are fresh per call (no memoising decorator)']
 MANIFEST = {
     'technique': 'regex-AST class extraction vs frozen POSIX table; guarded-emission and ordering checks on CFG paths; constant folding of wbits',
     'text': ('Decides, exhaustively over the character class, that args2sh never emits an unsafe character unquoted (including '
@@ -108,6 +110,8 @@ def run_closing(ctx, prog):
 def run(ctx):
     prog = ctx.program
     mod = prog.module('strutils')
+    from rules.common import check_not_memoised
+    check_not_memoised(ctx, [prog.func('strutils.' + n) for n in ('parse_int_list', 'args2cmd', 'args2sh', 'format_int_list')])
     f = prog.func('strutils.args2sh')
     folder0 = Folder(mod)
 
